@@ -43,7 +43,8 @@ def utf8z(s):
 def metadata_payload(rng, padding=None):
     """content of a metadata element (tag 0x04): [padding] client id [machine id] [seq] [time]"""
     out = b""
-    cid = "".join(rng.choice("abcdefghijklmnopqrstuvwxyz:.-0123456789") for _ in range(rng.randrange(1, 20)))
+    n = rng.randrange(1, 20) if rng.random() < 0.85 else rng.choice([252, 253, 254, 255, 256, 300])
+    cid = "".join(rng.choice("abcdefghijklmnopqrstuvwxyz:.-0123456789") for _ in range(n))
     body = tlv(0x01, utf8z(cid))
     if rng.random() < 0.4:
         body += tlv(0x02, utf8z("m%d" % rng.randrange(1000)))
